@@ -5,6 +5,7 @@ Peer: RefSdoServer (block upload side, bitwise CRC-16/XMODEM); the fault
 injector drops / corrupts server frames on the simulated bus.
 """
 import math
+import struct
 
 from hypothesis import strategies as st
 
@@ -17,19 +18,44 @@ from harness.simbus import Frame, Hub
 PROPERTY = "C13"
 LEVEL = "fault_enumeration"
 RULE = ("case = (value length and content, CRC requested by client x supported by server, size indicated or "
-        "not, client block size 1..127, read route: raw read()/read(k) loops or buffered reader, fault). "
+        "not, client block size 1..127, read route, fault, optional earlier/later transfer through the same "
+        "client). Read routes: raw read()/read(k)/readinto(small buffer) loops or buffered reader, either until "
+        "an empty chunk (EOF read) or - 'stop' routes - exactly the value's length and then close() with no "
+        "EOF read ever made (read(size), read(7) x size, readinto counted against the size). "
         "Faults: none | drop segment k | flip one bit in the data bytes of segment k | wrong CRC in the end "
-        "frame | end frame with wrong n | end frame with wrong command. Enumerated: boundary lengths (7k+-1, "
-        "889+-1, 2*889+-1, 1..64) undisturbed over all CRC/size/blksize classes; every segment position k x "
-        "fault kind for lengths <= 300; Hypothesis adds random lengths up to 10^4. Oracle: undisturbed => "
+        "frame (xor of 1..16 bits, byte-swapped, 0x0000, 0xFFFF, complement, high/low byte only, +-1, high byte "
+        "lost, CRC with initial value 0xFFFF, CRC over the padded last segment) | end frame with wrong n | end "
+        "frame with a wrong command and the original n | end frame replaced (wrong command x any n, all-zero "
+        "frame, echo of the initiate response, duplicate of the last segment, an abort, one flipped bit of the "
+        "command byte) | end frame lost. Enumerated: boundary lengths (7k+-1, "
+        "889+-1, 2*889+-1, 1..64) undisturbed over all CRC/size/blksize classes, once with EOF routes and once "
+        "with exact-size routes; every segment position k x {drop, flip} for lengths <= 300 with EOF routes and "
+        "for 25 lengths <= 300 (+ 889, 890, 1778 at sub-block edges) with exact-size routes; every end-frame "
+        "variant x CRC on/off x both route families for 21 lengths; Hypothesis adds random lengths up to 10^4. "
+        "Oracle: undisturbed => "
         "exact value, strict validation of every client frame (initiate, start, acknowledges with the last "
-        "in-order sequence number, final end); fault with CRC negotiated => SdoError or exact value, never "
-        "other bytes; without CRC only detectable faults (loss, wrong end command) are asserted. "
+        "in-order sequence number, final end request seen by the server when close() returns, whatever the read "
+        "route); the reference server honours a protocol switch threshold announced by the client (pst > 0 and "
+        "value not longer: it answers with the normal upload protocol, as CiA 301 allows). Fault with CRC "
+        "negotiated => SdoError or exact value, never "
+        "other bytes; an end frame that is well-formed, keeps n and carries a checksum different from the CRC of "
+        "the value (CRC negotiated) => SdoError is required, returning is a discrepancy even with the right "
+        "bytes; without CRC only detectable faults (loss of a segment or of the end frame, an end frame that is "
+        "not 0xC1|n<<2) are asserted. The end-frame verdict is computed from the frame actually delivered "
+        "(well-formed? which n? which CRC over the bytes that n leaves?), not from the fault's name. "
+        "A later undisturbed block upload of a second object through the same client (after an undisturbed or a "
+        "disturbed first one) must again return exactly its value and be closed. "
         "Non-trivial = more than one sub-block or a fault; distinct = canonical JSON.")
 ASSUMPTIONS = [
     "without CRC a flipped bit, a wrong CRC field or a wrong unused-byte count cannot be detected by any "
     "client; those runs are counted as informational and not asserted",
     "BlockUploadStream.blksize is a public class attribute; the harness varies it per case",
+    "a caller that knows the value's length (announced size, or the object dictionary) may read exactly that "
+    "many bytes and close; the transfer counts as closed when the server has seen the end request by the time "
+    "close() / the with-block returns",
+    "a lost end frame is treated as a (degenerate) wrong end frame: only 'SdoError or exact value' is asserted",
+    "before the later transfer that follows a disturbed one the reference server is put back to idle (what "
+    "a disturbed transfer leaves in the server is not judged); what it leaves in the client is",
 ]
 BUDGET = {"quick": 150, "thorough": 420}
 NODE = 2
@@ -46,6 +72,126 @@ def payload(n, salt):
     return bytes(((i * 29 + salt * 5 + (i >> 7)) % 255) + 1 for i in range(n))
 
 
+class _Server(RefSdoServer):
+    """RefSdoServer that also honours the protocol switch threshold of the block upload initiate request:
+    a client that announces pst > 0 allows the server to answer with the normal (expedited / segmented)
+    upload protocol when the value is not longer than pst bytes - and this server then does."""
+
+    def _block_upload(self, d):
+        if d[0] & 3 == 0 and not d[0] & 0x18 and d[5] and 1 <= d[4] <= 127 and not (d[6] or d[7]):
+            value = self._read(struct.unpack_from("<HB", d, 1))
+            if isinstance(value, (bytes, bytearray)) and len(value) <= d[5]:
+                return self._init_upload(d, from_block=True)
+        return super()._block_upload(d)
+
+
+# wrong command bytes for the end frame (bits 4..2 = n are filled in separately)
+END_CS = [0xC0, 0xC2, 0xC3, 0x60, 0xA1, 0x41, 0xE1, 0x81, 0x21, 0x01]
+CRC_MODES = ["swap", "zero", "ones", "inv", "hi", "lo", "inc", "dec", "trunc", "init_ffff", "padded"]
+END_KINDS = ("end_n", "end_cs", "crc", "end_x", "end_drop")
+
+
+def wrong_crc(c, mode, k, data, nsegs):
+    """A structured wrong value for the checksum field (may coincide with the right one: judged later)."""
+    if mode == "swap":
+        return ((c & 0xFF) << 8) | (c >> 8)
+    if mode == "zero":
+        return 0
+    if mode == "ones":
+        return 0xFFFF
+    if mode == "inv":
+        return c ^ 0xFFFF
+    if mode == "hi":
+        return c ^ (0x0100 << (k % 8))
+    if mode == "lo":
+        return c ^ (1 << (k % 8))
+    if mode == "inc":
+        return (c + 1) & 0xFFFF
+    if mode == "dec":
+        return (c - 1) & 0xFFFF
+    if mode == "trunc":
+        return c & 0xFF
+    if mode == "init_ffff":
+        return crc16_xmodem(data, 0xFFFF)
+    if mode == "padded":
+        return crc16_xmodem(data.ljust(7 * nsegs, b"\0"))
+    raise ValueError(mode)
+
+
+def judge_end(frame, crc_on, data, nsegs):
+    """What does the end frame that was actually delivered say, and can a client know that it is wrong?
+
+    'invalid'      not an end-of-block-upload response (0xC1 | n << 2): any client can see it
+    'wrong-crc'    well-formed, right n, checksum differs from the CRC of the value (CRC negotiated)
+    'wrong-n'      well-formed, other n, checksum does not fit the bytes that this n leaves (CRC negotiated)
+    'collision'    well-formed, other n, but the checksum fits the bytes that this n leaves: undetectable
+    'undetectable' well-formed, other n, no CRC negotiated
+    'same'         says the same as the server's frame in everything that is significant
+    """
+    frame = bytes(frame)
+    if len(frame) != 8 or (frame[0] & 0xE3) != 0xC1:
+        return "invalid"
+    padded = data.ljust(7 * nsegs, b"\0")
+    n_true = len(padded) - len(data)
+    n2 = (frame[0] >> 2) & 7
+    if not crc_on:
+        return "same" if n2 == n_true else "undetectable"
+    left = padded[:len(padded) - n2]
+    if frame[1] | (frame[2] << 8) == crc16_xmodem(left):
+        return "same" if left == data else "collision"
+    return "wrong-crc" if n2 == n_true else "wrong-n"
+
+
+def _consume(fp, case, n):
+    """Read the stream the way the case says. -> (bytes, early)"""
+    reads = case.get("reads")
+    early = None
+    if case.get("stop"):
+        # the caller knows the length: exactly that many bytes are asked for, then the stream is closed;
+        # no read ever reports end of file (unless the stream ends early)
+        reads = reads or [0]
+        got = b""
+        i = 0
+        while len(got) < n:
+            k = reads[i % len(reads)]
+            i += 1
+            rem = n - len(got)
+            if k is not None and k < 0:
+                buf = bytearray(min(-k, rem))
+                nread = fp.readinto(buf)
+                chunk = bytes(buf[:nread or 0])
+            else:
+                chunk = fp.read(min(k, rem) if k else rem)
+            if not chunk:
+                break
+            got += chunk
+        return got, early
+    if not reads:
+        return fp.read(), early
+    got = b""
+    i = 0
+    while True:
+        k = reads[i % len(reads)]
+        i += 1
+        if k is not None and k < 0:
+            buf = bytearray(-k)          # readinto() with a buffer that may be smaller than a segment
+            nread = fp.readinto(buf)
+            chunk = bytes(buf[:nread or 0])
+        else:
+            chunk = fp.read() if k is None else fp.read(k)
+        if not chunk:
+            break
+        got += chunk
+        if k is None:
+            # io contract: read() without a size returns everything up to the end
+            more = fp.read()
+            if more:
+                early = (chunk, more)
+                got += more
+            break
+    return got, early
+
+
 def run_case(case) -> Outcome:
     import canopen
     from canopen.sdo.exceptions import SdoError
@@ -53,7 +199,7 @@ def run_case(case) -> Outcome:
     n = case["len"]
     data = bytes(case["data"]) if "data" in case else payload(n, case.get("salt", 0))
     hub = Hub()
-    srv = RefSdoServer(0x600 + NODE, 0x580 + NODE)
+    srv = _Server(0x600 + NODE, 0x580 + NODE)
     srv.attach(hub)
     srv.crc_support = case.get("crc_srv", True)
     srv.block_size_indicated = case.get("size_ind", True)
@@ -63,6 +209,15 @@ def run_case(case) -> Outcome:
     node = canopen.RemoteNode(NODE, build_od([]))
     net.add_node(node)
     node.sdo.RESPONSE_TIMEOUT = 0.004
+    nsegs = max(1, math.ceil(n / 7))
+
+    def forget():
+        srv._reset()
+        srv.errors.clear()
+        srv.acks = [] if srv.acks is not None else None
+        srv.completed_block_uploads = 0
+        srv.client_aborts = type(srv.client_aborts)()
+
     pre = case.get("pre")
     if pre:
         # an earlier block upload of another object through the same client, given up half-way with
@@ -77,20 +232,19 @@ def run_case(case) -> Outcome:
             fp0.close()
         except SdoError:
             pass
-        srv._reset()
-        srv.errors.clear()
-        srv.acks = [] if srv.acks is not None else None
-        srv.completed_block_uploads = 0
-        srv.client_aborts = type(srv.client_aborts)()
+        forget()
     fault = case.get("fault")
-    hit = {"n": 0, "seg": 0}
+    hit = {"n": 0, "seg": 0, "init": None, "lastseg": None, "end": None}
 
     def flt(fr, h):
         if fault is None or fr.can_id != srv.tx_id:
             return [fr]
+        if srv.state == srv.BUL_START:
+            hit["init"] = bytes(fr.data)
         if srv.state == srv.BUL_ACK and fr.data[:1] != b"\x80":
             k = hit["seg"]
             hit["seg"] += 1
+            hit["lastseg"] = bytes(fr.data)
             if fault["kind"] in ("drop", "flip") and k == fault["k"]:
                 hit["n"] += 1
                 if fault["kind"] == "drop":
@@ -103,18 +257,44 @@ def run_case(case) -> Outcome:
                 byte = 1 + fault.get("byte", 0) % valid
                 d[byte] ^= 1 << (fault.get("bit", 0) % 8)
                 return [Frame(fr.can_id, bytes(d), ts=fr.ts, src=fr.src)]
-        elif srv.state == srv.BUL_END and fault["kind"] in ("end_n", "end_cs", "crc"):
+        elif srv.state == srv.BUL_END and fault["kind"] in END_KINDS:
             d = bytearray(fr.data)
             hit["n"] += 1
+            kk = fault.get("k", 0)
+            if fault["kind"] == "end_drop":
+                return []
             if fault["kind"] == "end_n":
                 nn = (d[0] >> 2) & 7
-                d[0] = (d[0] & 0xE3) | (((nn + 1 + fault.get("k", 0) % 6) % 8) << 2)
+                d[0] = (d[0] & 0xE3) | (((nn + 1 + kk % 6) % 8) << 2)
             elif fault["kind"] == "crc":
-                x = (fault.get("k", 0) % 0xFFFF) + 1
-                d[1] ^= x & 0xFF
-                d[2] ^= x >> 8
+                if "mode" in fault:
+                    x = wrong_crc(d[1] | (d[2] << 8), fault["mode"], kk, data, nsegs)
+                    d[1], d[2] = x & 0xFF, x >> 8
+                else:
+                    x = (kk % 0xFFFF) + 1
+                    d[1] ^= x & 0xFF
+                    d[2] ^= x >> 8
+            elif fault["kind"] == "end_cs":
+                d[0] = [0xC0, 0xC2, 0xC3, 0x60, 0xA1, 0x41][kk % 6] | (d[0] & 0x1C)
             else:
-                d[0] = [0xC0, 0xC2, 0xC3, 0x60, 0xA1, 0x41][fault.get("k", 0) % 6] | (d[0] & 0x1C)
+                how = fault["how"]
+                if how == "cs":
+                    # wrong command; the n bits are whatever the case says (None: the server's)
+                    nb = (d[0] & 0x1C) if fault.get("n") is None else ((fault["n"] % 8) << 2)
+                    d[0] = (END_CS[kk % len(END_CS)] & 0xE3) | nb
+                elif how == "zero":
+                    d = bytearray(8)
+                elif how == "init":
+                    d = bytearray(hit["init"] or bytes(8))
+                elif how == "dup":
+                    d = bytearray(hit["lastseg"] or bytes(8))
+                elif how == "abort":
+                    d = bytearray(struct.pack("<BHBL", 0x80, index, sub, 0x08000000))
+                elif how == "bit":
+                    d[0] ^= 1 << (kk % 8)
+                else:
+                    raise ValueError(how)
+            hit["end"] = bytes(d)
             return [Frame(fr.can_id, bytes(d), ts=fr.ts, src=fr.src)]
         return [fr]
 
@@ -124,53 +304,49 @@ def run_case(case) -> Outcome:
     exc = None
     got = None
     early = None
+    post = case.get("post")
+    post_res = None
     try:
-        fp = node.sdo.open(index, sub, "rb", block_transfer=True, buffering=case.get("buffering", 0),
-                           request_crc_support=case.get("crc_req", True))
-        with fp:
-            reads = case.get("reads")
-            if not reads:
-                got = fp.read()
+        try:
+            fp = node.sdo.open(index, sub, "rb", block_transfer=True, buffering=case.get("buffering", 0),
+                               request_crc_support=case.get("crc_req", True))
+            with fp:
+                got, early = _consume(fp, case, n)
+        except Exception as e:
+            exc = e
+        first = {"errors": list(srv.errors), "completed": srv.completed_block_uploads, "state": srv.state,
+                 "acks": list(srv.acks or []), "aborts": list(srv.client_aborts)}
+        if post:
+            # a later, undisturbed block upload of another object through the same client
+            hub.filter = None
+            if fault is not None and hit["n"] > 0:
+                forget()
             else:
-                got = b""
-                i = 0
-                while True:
-                    k = reads[i % len(reads)]
-                    i += 1
-                    if k is not None and k < 0:
-                        buf = bytearray(-k)          # readinto() with a buffer that may be smaller than a segment
-                        nread = fp.readinto(buf)
-                        chunk = bytes(buf[:nread or 0])
-                    else:
-                        chunk = fp.read() if k is None else fp.read(k)
-                    if not chunk:
-                        break
-                    got += chunk
-                    if k is None:
-                        # io contract: read() without a size returns everything up to the end
-                        more = fp.read()
-                        if more:
-                            early = (chunk, more)
-                            got += more
-                        break
-    except Exception as e:
-        exc = e
+                srv.errors.clear()
+                srv.completed_block_uploads = 0
+            data2 = payload(post["len"], post.get("salt", 5))
+            srv.store[(0x2FFE, 2)] = data2
+            try:
+                with node.sdo.open(0x2FFE, 2, "rb", block_transfer=True, buffering=post.get("buffering", 0)) as fp2:
+                    post_res = (fp2.read(), None)
+            except Exception as e:
+                post_res = (None, e)
     finally:
         BlockUploadStream.blksize = old_blk
     D = []
     crc = case.get("crc_req", True) and srv.crc_support
-    nsegs = max(1, math.ceil(n / 7))
     where = (f"len {n} crc {case.get('crc_req', True)}/{srv.crc_support} size_ind {srv.block_size_indicated} "
              f"blksize {case.get('blksize', 127)} buffering {case.get('buffering', 0)} reads {case.get('reads')} "
-             f"fault {fault}")
+             f"{'exact-size ' if case.get('stop') else ''}fault {fault}")
     faulted = fault is not None and hit["n"] > 0
     if fault is not None and not faulted:
         return Outcome(excluded="fault position beyond the end of the transfer")
+    route = "/exact-size" if case.get("stop") else ""
     if not faulted:
-        kind = "undisturbed"
+        kind = "undisturbed" + route
         if exc is not None:
             D.append(Discrepancy("C13/undisturbed/raises", f"{where}: {type(exc).__name__}: {exc}; "
-                                                           f"server saw {srv.errors[:2]}"))
+                                                           f"server saw {first['errors'][:2]}"))
         elif early is not None:
             D.append(Discrepancy("C13/undisturbed/read-all-stops-early",
                                  f"{where}: read() returned {early[0][:20].hex()}({len(early[0])}B) although "
@@ -178,36 +354,78 @@ def run_case(case) -> Outcome:
         elif bytes(got) != data:
             D.append(Discrepancy("C13/undisturbed/bytes", f"{where}: returned {bytes(got)[:20].hex()}"
                                                           f"({len(got)}B) want {data[:20].hex()}({len(data)}B)"))
-        elif srv.errors:
-            D.append(Discrepancy(f"C13/undisturbed/frame/{srv.errors[0].kind}", f"{where}: {srv.errors[0]}"))
-        elif srv.completed_block_uploads != 1 or srv.state != srv.IDLE:
+        elif first["errors"]:
+            D.append(Discrepancy(f"C13/undisturbed/frame/{first['errors'][0].kind}",
+                                 f"{where}: {first['errors'][0]}"))
+        elif first["completed"] != 1 or first["state"] != srv.IDLE:
             D.append(Discrepancy("C13/undisturbed/not-closed", f"{where}: the client did not close the "
                                                                f"transfer with the end request"))
-        elif any(a != s for a, s in (srv.acks or [])):
+        elif any(a != s for a, s in first["acks"]):
             D.append(Discrepancy("C13/undisturbed/ackseq", f"{where}: acknowledges (ackseq, sent) = "
-                                                           f"{srv.acks[:5]}"))
-        elif srv.client_aborts:
-            D.append(Discrepancy("C13/undisturbed/abort", f"{where}: client aborted {srv.client_aborts}"))
+                                                           f"{first['acks'][:5]}"))
+        elif first["aborts"]:
+            D.append(Discrepancy("C13/undisturbed/abort", f"{where}: client aborted {first['aborts']}"))
     else:
-        detectable = crc or fault["kind"] in ("drop", "end_cs")
-        kind = f"fault-{fault['kind']}/" + ("asserted" if detectable else "informational")
+        fk = fault["kind"]
+        must_raise = False
+        if fk in ("drop", "flip"):
+            detectable = crc or fk == "drop"
+            label = fk
+        elif fk == "end_drop":
+            detectable = True
+            label = fk
+        else:
+            verdict = judge_end(hit["end"], crc, data, nsegs)
+            if verdict == "same" and crc:
+                return Outcome(excluded="the modified end frame says the same as the server's")
+            if verdict == "collision":
+                return Outcome(excluded="the corrupted stream has the same CRC-16 as the value "
+                                        "(undetectable by any client)")
+            detectable = verdict in ("invalid", "wrong-crc", "wrong-n")
+            must_raise = verdict == "wrong-crc"
+            label = fk
+            if fk == "end_x":
+                label += "-" + (fault["how"] if fault["how"] in ("cs", "bit") else "frame")
+            elif "mode" in fault:
+                label += "-structured"
+        kind = f"fault-{label}{route}/" + ("asserted" if detectable else "informational")
         if exc is None:
             kind += "/returned"
-            if bytes(got) != data and crc and fault["kind"] != "crc" and \
+            if bytes(got) != data and crc and fk not in ("crc", "drop") and \
                     crc16_xmodem(bytes(got)) == crc16_xmodem(data):
                 # e.g. a trailing zero byte dropped by a wrong unused-byte count: CRC-16/XMODEM (initial
                 # value 0) is blind to it, so no client can notice
                 return Outcome(excluded="the corrupted stream has the same CRC-16 as the value "
                                         "(undetectable by any client)")
             if bytes(got) != data and detectable:
-                D.append(Discrepancy(f"C13/fault/{fault['kind']}/wrong-data-returned",
+                D.append(Discrepancy(f"C13/fault/{fk}/wrong-data-returned",
                                      f"{where}: returned {bytes(got)[:20].hex()}({len(got)}B) instead of "
                                      f"{data[:20].hex()}({len(data)}B) or an SDO error"))
+            elif must_raise:
+                D.append(Discrepancy(f"C13/fault/{fk}/wrong-checksum-accepted",
+                                     f"{where}: CRC negotiated, the end frame {hit['end'].hex()} carries a "
+                                     f"checksum that is not the CRC-16 0x{crc16_xmodem(data):04X} of the value, "
+                                     f"yet the upload returned ({len(got)}B) without an SDO error"))
         else:
             kind += "/raised"
             if not isinstance(exc, SdoError) and detectable:
-                D.append(Discrepancy(f"C13/fault/{fault['kind']}/not-an-sdo-error",
+                D.append(Discrepancy(f"C13/fault/{fk}/not-an-sdo-error",
                                      f"{where}: {type(exc).__name__}: {exc}"))
+    if post and not D:
+        if not faulted:
+            kind += "/then-second"
+        got2, exc2 = post_res
+        w2 = f"{where}; then block upload of a second object ({post['len']}B, buffering {post.get('buffering', 0)})"
+        if exc2 is not None:
+            D.append(Discrepancy("C13/second-transfer/raises", f"{w2}: {type(exc2).__name__}: {exc2}; "
+                                                               f"server saw {srv.errors[:2]}"))
+        elif bytes(got2) != data2:
+            D.append(Discrepancy("C13/second-transfer/bytes", f"{w2}: returned {bytes(got2)[:20].hex()}"
+                                                              f"({len(got2)}B) want {data2[:20].hex()}({len(data2)}B)"))
+        elif srv.errors:
+            D.append(Discrepancy(f"C13/second-transfer/frame/{srv.errors[0].kind}", f"{w2}: {srv.errors[0]}"))
+        elif srv.completed_block_uploads != 1 or srv.state != srv.IDLE:
+            D.append(Discrepancy("C13/second-transfer/not-closed", f"{w2}: the client did not close the transfer"))
     nontrivial = faulted or nsegs > case.get("blksize", 127)
     return Outcome(nontrivial, f"{kind}/{'crc' if crc else 'nocrc'}/"
                                f"{'multi' if nsegs > case.get('blksize', 127) else 'single'}-block", D)
@@ -226,6 +444,10 @@ def boundary_lengths():
 ROUTES = [(0, None), (0, [7]), (0, [1]), (0, [100]), (1024, None), (1024, [5]), (3, None), (7, [9]), (8192, [64]),
           (3, [1, None]), (5, [2, 2, None]), (1024, [10, None]), (0, [-3, None]), (0, [-1, -9, 7]), (7, [-2, None]),
           (0, [-6, -6, None])]
+# exact-size routes (case["stop"]): 0 = "everything that is left" in one call, k > 0 = read(min(k, left)),
+# k < 0 = readinto(buffer of min(-k, left) bytes)
+STOP_ROUTES = [(0, [7]), (1024, [0]), (0, [-3]), (1024, [5]), (3, [0]), (0, [-7, -1]), (8192, [64]), (7, [-2]),
+               (0, [1]), (2, [9, -4]), (0, [0]), (16, [7])]
 
 
 def enum_undisturbed():
@@ -264,8 +486,128 @@ def enum_faults():
                            "blksize": blk, "buffering": 0, "reads": None, "fault": {"kind": kind, "k": k}}
 
 
+POSTS = [{"len": 20, "buffering": 0}, {"len": 5, "buffering": 1024}, {"len": 900, "buffering": 0},
+         {"len": 7, "buffering": 3}]
+
+
+def enum_undisturbed_stop(thorough):
+    """The caller reads exactly the value's length and closes: no read ever reports end of file."""
+    i = 0
+    crcs = ((True, True), (True, False), (False, True), (False, False))
+    for n in boundary_lengths():
+        for blk in (127, 1, 5, 2, 126) if thorough else (127, 1, 5):
+            if math.ceil(n / 7) / blk > 300:
+                continue
+            for size_ind in (True, False):
+                for c in range(4 if thorough else 1):
+                    i += 1
+                    crc_req, crc_srv = crcs[(i + c) % 4]
+                    b, r = STOP_ROUTES[i % len(STOP_ROUTES)]
+                    case = {"len": n, "salt": i % 17, "crc_req": crc_req, "crc_srv": crc_srv, "size_ind": size_ind,
+                            "blksize": blk, "buffering": b, "reads": r, "stop": True}
+                    if i % 5 == 0:
+                        case["post"] = dict(POSTS[(i // 5) % len(POSTS)], salt=i % 13)
+                    yield case
+    # ... and the EOF routes followed by a second transfer
+    for n in boundary_lengths():
+        i += 1
+        if i % (1 if thorough else 3):
+            continue
+        b, r = ROUTES[i % len(ROUTES)]
+        yield {"len": n, "salt": i % 17, "crc_req": i % 4 != 0, "crc_srv": i % 5 != 0, "size_ind": i % 3 != 0,
+               "blksize": (127, 1, 5)[i % 3], "buffering": b, "reads": r,
+               "post": dict(POSTS[i % len(POSTS)], salt=i % 13)}
+
+
+STOP_FAULT_LENGTHS = [1, 5, 6, 7, 8, 13, 14, 15, 20, 21, 22, 26, 28, 49, 50, 56, 63, 64, 70, 100, 140, 147, 200, 294,
+                      300]
+
+
+def enum_faults_stop(thorough):
+    """Every segment position x {drop, flip} through the exact-size routes."""
+    i = 0
+    lengths = sorted(set(STOP_FAULT_LENGTHS) | set(range(1, 301, 4))) if thorough else STOP_FAULT_LENGTHS
+    for n in lengths:
+        nsegs = math.ceil(n / 7)
+        for blk in (127, 3, 1, 10) if thorough else (127, 3):
+            for k in range(nsegs):
+                for kind in ("drop", "flip"):
+                    i += 1
+                    b, r = STOP_ROUTES[i % len(STOP_ROUTES)]
+                    case = {"len": n, "salt": i % 11, "crc_req": i % 5 != 0, "crc_srv": True, "size_ind": i % 3 != 0,
+                            "blksize": blk, "buffering": b, "reads": r, "stop": True,
+                            "fault": {"kind": kind, "k": k, "byte": i % 7, "bit": i % 8}}
+                    if i % 9 == 0:
+                        case["post"] = dict(POSTS[(i // 9) % len(POSTS)], salt=i % 13)
+                    yield case
+    for n in (889, 890, 1778):
+        nsegs = math.ceil(n / 7)
+        for k in sorted({0, 1, 63, 125, 126, 127, 128, nsegs // 2, nsegs - 2, nsegs - 1}):
+            if not 0 <= k < nsegs:
+                continue
+            for kind in ("drop", "flip"):
+                i += 1
+                b, r = STOP_ROUTES[i % len(STOP_ROUTES)]
+                yield {"len": n, "salt": i % 11, "crc_req": i % 5 != 0, "crc_srv": True, "size_ind": i % 3 != 0,
+                       "blksize": 127, "buffering": b, "reads": r, "stop": True,
+                       "fault": {"kind": kind, "k": k, "byte": i % 7, "bit": i % 8}}
+
+
+def end_variants():
+    for mode in CRC_MODES:
+        yield {"kind": "crc", "mode": mode, "k": 0}
+    yield {"kind": "crc", "mode": "hi", "k": 5}
+    yield {"kind": "crc", "mode": "lo", "k": 7}
+    yield {"kind": "crc", "k": 0x0100 - 1}        # xor 0x0100: only the high byte differs
+    yield {"kind": "crc", "k": 0x8000 - 1}
+    for c in range(len(END_CS)):
+        for nb in (0, 7, None, 3):
+            yield {"kind": "end_x", "how": "cs", "k": c, "n": nb}
+    for how in ("zero", "init", "dup", "abort"):
+        yield {"kind": "end_x", "how": how}
+    for bit in range(8):
+        yield {"kind": "end_x", "how": "bit", "k": bit}
+    for k in range(6):
+        yield {"kind": "end_n", "k": k}
+    for k in range(6):
+        yield {"kind": "end_cs", "k": k}
+    yield {"kind": "end_drop"}
+
+
+END_FAULT_LENGTHS = [1, 2, 5, 6, 7, 8, 13, 14, 15, 21, 22, 26, 28, 50, 63, 64, 70, 147, 300, 889, 890]
+
+
+def _mix(i):
+    """deterministic scrambling of a running index, so that the side choices (route family, route, block size,
+    second transfer) do not fall into step with the position in end_variants()"""
+    return ((i * 2654435761) & 0xFFFFFFFF) >> 6
+
+
+def enum_end_faults(thorough):
+    """Every end-frame variant x CRC negotiated or not, through EOF routes and exact-size routes."""
+    i = 0
+    lengths = sorted(set(END_FAULT_LENGTHS) | set(range(1, 130, 3)) | {888, 1777, 1778, 1779}) if thorough \
+        else END_FAULT_LENGTHS
+    for n in lengths:
+        for crc_on in (True, False):
+            for f in end_variants():
+                for stop in (True, False):
+                    i += 1
+                    m = _mix(i)
+                    routes = STOP_ROUTES if stop else ROUTES
+                    b, r = routes[(m >> 1) % len(routes)]
+                    case = {"len": n, "salt": (m >> 5) % 11, "crc_req": crc_on or (m >> 9) % 3 == 0, "crc_srv": crc_on,
+                            "size_ind": (m >> 11) % 3 != 0, "blksize": (127, 3, 1, 10)[(m >> 13) % 4], "buffering": b,
+                            "reads": r, "fault": dict(f)}
+                    if stop:
+                        case["stop"] = True
+                    if (m >> 15) % 8 == 0:
+                        case["post"] = dict(POSTS[(m >> 18) % len(POSTS)], salt=(m >> 20) % 13)
+                    yield case
+
+
 @st.composite
-def rand_case(draw, max_len):
+def rand_case(draw, max_len, ext=False):
     n = draw(st.one_of(st.sampled_from(boundary_lengths()), st.integers(1, 400),
                        st.integers(1, int(math.log2(max_len) * 8)).map(lambda e: max(1, min(max_len, int(2 ** (e / 8.0)))))))
     blk = draw(st.one_of(st.just(127), st.integers(1, 127)))
@@ -279,22 +621,59 @@ def rand_case(draw, max_len):
     else:
         case["salt"] = draw(st.integers(0, 250))
     case["buffering"] = draw(st.sampled_from([0, 0, 2, 3, 7, 64, 1024, 8192]))
-    case["reads"] = draw(st.one_of(st.none(), st.lists(st.integers(1, 80), min_size=1, max_size=3),
-                                   st.lists(st.integers(1, 9), min_size=1, max_size=2).map(lambda l: l + [None]),
-                                   st.lists(st.one_of(st.integers(-9, -1), st.integers(1, 9), st.none()),
-                                            min_size=1, max_size=4)))
+    if ext and draw(st.booleans()):
+        case["stop"] = True
+        case["reads"] = draw(st.lists(st.one_of(st.integers(-9, 80), st.just(0), st.just(7)), min_size=1, max_size=3))
+    else:
+        case["reads"] = draw(st.one_of(st.none(), st.lists(st.integers(1, 80), min_size=1, max_size=3),
+                                       st.lists(st.integers(1, 9), min_size=1, max_size=2).map(lambda l: l + [None]),
+                                       st.lists(st.one_of(st.integers(-9, -1), st.integers(1, 9), st.none()),
+                                                min_size=1, max_size=4)))
     if draw(st.integers(0, 4)) == 0:
         case["pre"] = {"len": draw(st.sampled_from([8, 20, 100, 2000])), "k": draw(st.integers(1, 6)),
                        "buffering": draw(st.sampled_from([0, 0, 1024]))}
-    kind = draw(st.sampled_from(["none", "none", "drop", "flip", "crc", "end_n", "end_cs"]))
-    if kind != "none":
+    if not ext:
+        kind = draw(st.sampled_from(["none", "none", "drop", "flip", "crc", "end_n", "end_cs"]))
+        if kind != "none":
+            case["fault"] = {"kind": kind, "k": draw(st.integers(0, max(0, nsegs - 1))),
+                             "byte": draw(st.integers(0, 6)), "bit": draw(st.integers(0, 7))}
+        return case
+    kind = draw(st.sampled_from(["none", "drop", "flip", "crc", "crc", "end_n", "end_x", "end_x", "end_drop"]))
+    if kind in ("drop", "flip"):
         case["fault"] = {"kind": kind, "k": draw(st.integers(0, max(0, nsegs - 1))),
                          "byte": draw(st.integers(0, 6)), "bit": draw(st.integers(0, 7))}
+    elif kind == "crc":
+        case["crc_req"] = case["crc_srv"] = True
+        if draw(st.booleans()):
+            case["fault"] = {"kind": kind, "mode": draw(st.sampled_from(CRC_MODES)), "k": draw(st.integers(0, 7))}
+        else:
+            case["fault"] = {"kind": kind, "k": draw(st.integers(0, 0xFFFE))}
+    elif kind == "end_n":
+        case["fault"] = {"kind": kind, "k": draw(st.integers(0, 5))}
+    elif kind == "end_x":
+        how = draw(st.sampled_from(["cs", "cs", "cs", "zero", "init", "dup", "abort", "bit"]))
+        case["fault"] = {"kind": kind, "how": how, "k": draw(st.integers(0, 9))}
+        if how == "cs":
+            case["fault"]["n"] = draw(st.one_of(st.none(), st.integers(0, 7)))
+    elif kind == "end_drop":
+        case["fault"] = {"kind": kind}
+    if draw(st.integers(0, 3)) == 0:
+        case["post"] = {"len": draw(st.sampled_from([1, 7, 20, 100, 889, 900])),
+                        "buffering": draw(st.sampled_from([0, 0, 3, 1024])), "salt": draw(st.integers(0, 20))}
     return case
 
 
 def search(ctx):
     thorough = ctx.tier == "thorough"
     ctx.enumerate(enum_undisturbed(), "boundary lengths x CRC x size indication x client block size, undisturbed")
+    ctx.enumerate(enum_undisturbed_stop(thorough), "boundary lengths x client block size x size indication, undisturbed, "
+                                                   "read of exactly the value's length then close (no EOF read); "
+                                                   "second transfer through the same client")
+    ctx.enumerate(enum_end_faults(thorough), "every end-frame variant (wrong checksum classes, wrong command x n, "
+                                             "replaced frame, lost) x CRC negotiated or not x route family")
+    ctx.enumerate(enum_faults_stop(thorough), "every segment position x {drop, flip} through the exact-size routes")
+    # the big family comes last among the enumerations: on a heavily loaded machine the cooperative budget
+    # cuts the tail of the search
     ctx.enumerate(enum_faults(), "every segment position x {drop, flip} and end-frame faults, lengths <= 300")
     ctx.hypothesis(rand_case(10000 if thorough else 3000), 25000 if thorough else 500)
+    ctx.hypothesis(rand_case(10000 if thorough else 3000, ext=True), 8000 if thorough else 300, salt=1)
